@@ -181,3 +181,202 @@ def adversarial(rng, gname=None, kinds=None, npeers=None, nframes=None):
     sc = base(gname, peers, steps, [{'k': 'peers', 'peers': []}], pat=rng.randrange(251))
     sc['family'] = 'adversarial'
     return sc
+
+
+def upload(rng, gname=None):
+    """C09/C11: download from an honest seeder, then a leecher handshakes (gets our bitfield), gets
+    unchoked, and requests all kinds of ranges; later it is choked by a rotation and asks again."""
+    gname = gname or rng.choice(['g4', 'g2', 'g3'])
+    pl, files, n, plens = geo(gname)
+    own = set(range(n)) if rng.random() < 0.6 else set(rng.sample(range(n), rng.randint(1, n)))
+    peers = [peer(0, own, serve='good'), peer(1, set(), serve='none'), peer(2, set(), serve='none')]
+    steps = [{'op': 'connect', 'peer': 0}, send(0, hs(), bf(own)), send(0, fr('Unchoke')), {'op': 'advance', 'ms': 300}]
+    nle = rng.choice([1, 1, 2])
+    for L in range(1, 1 + nle):
+        steps += [{'op': 'connect', 'peer': L}, send(L, hs())]
+        if rng.random() < 0.8:
+            steps.append(send(L, bf(set())))           # makes the client unchoke us (slots permitting)
+        if rng.random() < 0.8:
+            steps.append(send(L, fr('Interested')))
+    def req(L):
+        p = rng.choice(sorted(own) + [rng.randrange(n), n, n + 5])
+        plen = plens[p] if p < n else 1000
+        b, l = rng.choice([(0, min(plen, 100)), (0, 0), (0, min(plen, 16384)), (0, 16385), (max(0, plen - 10), 10), (max(0, plen - 10), 11),
+                           (4294967295, 1), (4294967200, 96), (4294967295, 4294967295), (plen, 0), (plen, 1), (1, min(plen - 1, 16384)),
+                           (0, plen)])
+        return send(L, fr('Request', p, b, l))
+    for _ in range(rng.randint(3, 10)):
+        steps.append(req(rng.randint(1, nle)))
+    if rng.random() < 0.7:
+        # let the choke rotation run: stats need two 10 s ticks, then the 10 s rotation timer
+        L = rng.randint(1, nle)
+        if rng.random() < 0.6:
+            steps.append(send(L, fr('NotInterested')))
+        steps.append({'op': 'advance', 'ms': rng.choice([31000, 41000]), 'slice': 1000})
+        for _ in range(rng.randint(1, 4)):
+            steps.append(req(L))
+        if rng.random() < 0.5:
+            steps.append(send(L, fr('Interested')))
+            steps.append({'op': 'advance', 'ms': 21000, 'slice': 1000})
+            steps.append(req(L))
+    steps.append({'op': 'advance', 'ms': 500})
+    sc = base(gname, peers, steps, [{'k': 'peers', 'peers': []}], pat=rng.randrange(251))
+    sc['family'] = 'upload'
+    return sc
+
+
+def choking(rng):
+    """C14: many peers, interest flips, chosen rate vectors (ties), bitfield bursts, several rotations."""
+    gname = 'g4'
+    pl, files, n, plens = geo(gname)
+    k = rng.choice([3, 6, 12, 13, 14])
+    peers = [peer(j, set(rng.sample(range(n), rng.randint(0, n))), serve='none') for j in range(k)]
+    steps = [{'op': 'advance', 'ms': 10}]
+    for j in range(k):
+        # (the listener refuses new connections while 4 connected peers have nothing we want, so each
+        #  peer shows its pieces before the next one connects)
+        if not peers[j]['has'] and rng.random() < 0.8:
+            peers[j]['has'] = [rng.randrange(n)]
+        steps.append({'op': 'connect', 'peer': j})
+        steps.append(send(j, hs()))
+        steps.append({'op': 'rates', 'peer': j, 'dl': rng.choice([0, 1, 5, 5, 9]), 'ul': rng.choice([0, 2, 2, 7])})
+        if rng.random() < 0.9:
+            steps.append(send(j, bf(peers[j]['has'])))
+        if rng.random() < 0.6:
+            steps.append(send(j, fr('Interested')))
+    for rnd in range(rng.randint(3, 5)):
+        steps.append({'op': 'advance', 'ms': 10000, 'slice': 2500})
+        for _ in range(rng.randint(0, 4)):
+            j = rng.randrange(k)
+            what = rng.choice(['Interested', 'NotInterested', 'rates', 'close', 'Bitfield'])
+            if what == 'rates':
+                steps.append({'op': 'rates', 'peer': j, 'dl': rng.choice([0, 1, 5, 9]), 'ul': rng.choice([0, 2, 7])})
+            elif what == 'close':
+                if rng.random() < 0.3:
+                    steps.append({'op': 'close', 'peer': j})
+            elif what == 'Bitfield':
+                steps.append(send(j, bf(peers[j]['has'])))
+            else:
+                steps.append(send(j, fr(what)))
+    steps.append({'op': 'advance', 'ms': 300})
+    sc = base(gname, peers, steps, [{'k': 'peers', 'peers': []}], pat=rng.randrange(251))
+    sc['family'] = 'choking'
+    return sc
+
+
+KA = 120000
+
+
+def keepalive(rng):
+    """C20: arrival patterns relative to the 120 s keep-alive timer."""
+    gname = 'g4'
+    pl, files, n, plens = geo(gname)
+    k = rng.randint(1, 3)
+    peers = [peer(j, {0, 1}, serve='none') for j in range(k)]
+    steps = []
+    plan = []
+    for j in range(k):
+        steps.append({'op': 'connect', 'peer': j})
+        mode = rng.choice(['silent', 'silent_after_hs', 'ka_only', 'live', 'live_then_silent', 'edge'])
+        plan.append(mode)
+        if mode != 'silent':
+            steps.append(send(j, hs()))
+    # timeline in multiples of a quarter interval
+    t = 0
+    q = KA // 4
+    horizon = rng.choice([13, 17]) * q
+    live_kinds = ['Have', 'Interested', 'NotInterested', 'Choke', 'Unchoke', 'Cancel', 'Bitfield', 'Request']
+    while t < horizon:
+        dt = rng.choice([q, q, 2 * q, 3 * q, q - 1, q + 1, 4 * q - 2])
+        steps.append({'op': 'advance', 'ms': dt, 'slice': 5000})
+        t += dt
+        for j in range(k):
+            m = plan[j]
+            if m == 'ka_only' and rng.random() < 0.8:
+                steps.append(send(j, fr('KeepAlive')))
+            if m == 'live' or (m == 'live_then_silent' and t < horizon // 2) or (m == 'edge' and rng.random() < 0.5):
+                kd = rng.choice(live_kinds)
+                f = fr('Have', rng.randrange(n)) if kd == 'Have' else bf({0, 1}) if kd == 'Bitfield' else \
+                    fr('Request', 0, 0, 10) if kd == 'Request' else fr('Cancel', 0, 0, 10) if kd == 'Cancel' else fr(kd)
+                steps.append(send(j, f))
+    steps.append({'op': 'advance', 'ms': 100})
+    sc = base(gname, peers, steps, [{'k': 'peers', 'peers': []}], pat=rng.randrange(251))
+    sc['family'] = 'keepalive'
+    sc['plan'] = plan
+    return sc
+
+
+def handshakes(rng):
+    """C08: handshakes of every kind at any point of a message history, incoming and outgoing, with
+    a seeded store so that piece data could actually be sent."""
+    gname = rng.choice(['g4', 'g2'])
+    pl, files, n, plens = geo(gname)
+    peers = [peer(0, set(range(n)), serve='good'), peer(1, set(), serve='none'), peer(2, set(), serve='none')]
+    steps = [{'op': 'listen', 'peer': 2}]
+    seeded = rng.random() < 0.7
+    if seeded:
+        steps += [{'op': 'connect', 'peer': 0}, send(0, hs(), bf(range(n))), send(0, fr('Unchoke')), {'op': 'advance', 'ms': 300}]
+    other = '00' * 20
+    wrong_id = ('-YY9999-' + 'z' * 12).encode().hex()
+    for j in (1, 2):
+        if j == 1:
+            steps.append({'op': 'connect', 'peer': 1})
+        else:
+            steps.append({'op': 'tracker', 'outcome': {'k': 'peers', 'peers': [2]}})
+            steps.append({'op': 'advance', 'ms': 1500})
+        kind = rng.choice(['good', 'badhash', 'badid', 'badpstr', 'never', 'late', 'twice', 'short'])
+        pre = []
+        for _ in range(rng.randint(0, 2) if kind in ('late', 'never', 'badhash') else 0):
+            pre.append(rng.choice([bf(set()), fr('Interested'), fr('Request', 0, 0, 10), fr('Have', 0), fr('Unchoke')]))
+        for f in pre:
+            steps.append(send(j, f))
+        h = hs()
+        if kind == 'badhash':
+            h['ih'] = other
+        if kind == 'badid':
+            h['id'] = wrong_id
+        if kind == 'badpstr':
+            h['pstr'] = b'BitTorrent protocoL'.hex()
+        if kind == 'short':
+            steps.append(send(j, {'k': 'Raw', 'hex': '13426974546f7272'}))
+        elif kind != 'never':
+            steps.append(send(j, h))
+        if kind == 'twice':
+            steps.append(send(j, hs()))
+        # whatever happened, the peer now behaves like a leecher
+        steps.append(send(j, bf(set())))
+        steps.append(send(j, fr('Interested')))
+        steps.append(send(j, fr('Request', 0, 0, min(100, plens[0]))))
+    steps.append({'op': 'advance', 'ms': 200})
+    sc = base(gname, peers, steps, [{'k': 'hang'}] if False else [], pat=rng.randrange(251))
+    sc['family'] = 'handshakes'
+    return sc
+
+
+def malformed(rng):
+    """C06 at connection-task level: after a handshake the peer sends something fatal (wrong length
+    prefix, oversized frame, garbage) or closes inside a frame; the task must end at that instant."""
+    gname = 'g4'
+    pl, files, n, plens = geo(gname)
+    peers = [peer(0, {0, 1}, serve='none'), peer(1, {0}, serve='none')]
+    steps = [{'op': 'connect', 'peer': 0}, send(0, hs()), {'op': 'connect', 'peer': 1}, send(1, hs())]
+    fatal = rng.choice(['0000000200ff', '00000004040000', '0000000c06' + '00' * 11, '000000080700000000000000', '0001000107aabb',
+                        '00010001090000', 'ffffffff07', 'fffefdfcfbfa', '0001000002', 'trunc'])
+    pre = [rng.choice([fr('Have', 1), fr('Interested'), {'k': 'Raw', 'hex': '0000000109'}, {'k': 'Raw', 'hex': '000000041401020300000000'},
+                       fr('KeepAlive')]) for _ in range(rng.randint(0, 3))]
+    for f in pre:
+        steps.append(send(0, f))
+    if fatal == 'trunc':
+        steps.append(send(0, {'k': 'Raw', 'hex': rng.choice(['00000005', '0000000504', '000000050400', '00', '0000000d060000'])}))
+        steps.append({'op': 'close', 'peer': 0})
+    else:
+        cuts = sorted(rng.sample(range(1, len(fatal) // 2), min(len(fatal) // 2 - 1, rng.randint(0, 2)))) if len(fatal) > 4 else []
+        steps.append(send(0, {'k': 'Raw', 'hex': fatal}, cuts=cuts))
+        if rng.random() < 0.5:
+            steps.append(send(0, {'k': 'Raw', 'hex': '00000000' * rng.choice([1, 50, 3000])}))   # flood after the fatal frame
+    steps.append(send(1, fr('Interested')))
+    steps.append({'op': 'advance', 'ms': 50})
+    sc = base(gname, peers, steps, [], pat=rng.randrange(251))
+    sc['family'] = 'malformed'
+    sc['fatal'] = fatal
+    return sc
